@@ -37,13 +37,13 @@ fn any_ordering() -> std::cmp::Ordering {
 }
 
 /// A pending (never evaluated) thunk, unmanaged; distinct objects for distinct calls.
-fn pending_thunk<'p>(arena: &'p Arena, env: &GcView<ThunkEnv<'p>>) -> GcView<ThunkData<'p>> {
+pub(super) fn pending_thunk<'p>(arena: &'p Arena, env: &GcView<ThunkEnv<'p>>) -> GcView<ThunkData<'p>> {
     let null_expr: &ir::Expr<'_> = arena.alloc(ir::Expr::Null);
     GcView::kani_unmanaged(ThunkData::new_pending_expr(null_expr, Gc::from(env)))
 }
 
 /// An array of `N` pending thunks (their evaluation would be needed to compare items).
-fn pending_array<'p, const N: usize>(
+pub(super) fn pending_array<'p, const N: usize>(
     arena: &'p Arena,
     env: &GcView<ThunkEnv<'p>>,
 ) -> (GcView<ArrayData<'p>>, [GcView<ThunkData<'p>>; N]) {
@@ -88,7 +88,7 @@ fn frame_limit_case(enter: bool) {
     core::mem::forget(program);
 }
 
-// @harness id=c10_frame_limit props=C10,C01 tier=quick cap=900 fs=4096 unwindset=9Evaluator3run@first:2
+// @harness id=c10_frame_limit props=C10,C01 tier=quick cap=900 unwindset=9Evaluator3run@first:2
 // @desc one iteration of the real Evaluator::run on DelayedTraceItem (a frame is re-entered: the trace length grows by one) and on TraceItem (a frame is left) with ANY trace length and ANY frame limit: the run stops with StackOverflow exactly when the new trace length exceeds the limit (strictly), otherwise it goes on (here: ends with Ok since nothing is left to do)
 // @bound one loop iteration per case; stack_trace_len and max_stack arbitrary usize
 // @funcs Evaluator::run, Evaluator::inc_trace_len, Evaluator::dec_trace_len
@@ -102,7 +102,7 @@ fn c10_frame_limit() {
 }
 }
 
-// @harness id=c10_push_trace_counts props=C10 tier=quick cap=900 fs=4096
+// @harness id=c10_push_trace_counts props=C10 tier=quick cap=900
 // @desc the only two ways a frame is pushed: push_trace_item adds exactly one TraceItem state and one to the trace length; delay_trace_item adds exactly one DelayedTraceItem state and takes one off (so that a suspended frame is not counted while its callee-side states run); together they keep stack_trace_len == #TraceItem - #DelayedTraceItem on the state stack, from any starting length
 // @bound two operations; any starting length
 // @funcs Evaluator::push_trace_item, Evaluator::delay_trace_item
@@ -197,18 +197,29 @@ fn got_thunk_case() {
     core::mem::forget((keep, env));
 }
 
-// @harness id=c04_thunk_run_steps props=C04,C10 tier=quick cap=1200 fs=4096 unwindset=9Evaluator3run@first:1
-// @desc one iteration of the real Evaluator::run per case: DoThunk(t) with t Done(v): v is pushed and nothing is scheduled (a value is never computed twice); t Pending: t becomes InProgress, GotThunk(t) is scheduled below the delayed expression, nothing is pushed yet; t InProgress (its own evaluation demands it: local x = x): the run fails with InfiniteRecursion instead of recursing; GotThunk(t) with a value on the stack: t becomes Done with exactly that value and the value stays for the consumer
-// @bound one loop iteration per case; 4 cases; values = arbitrary finite numbers
-// @funcs Evaluator::run (arms State::DoThunk, State::GotThunk), ThunkData::switch_state, ThunkData::set_done
+// @harness id=c04_do_thunk_steps props=C04 tier=quick cap=1200 unwindset=9Evaluator3run@first:1
+// @desc one iteration of the real Evaluator::run per case: DoThunk(t) with t Done(v): v is pushed and nothing is scheduled (a value is never computed twice); t Pending: t becomes InProgress, GotThunk(t) is scheduled below the delayed expression, nothing is pushed yet
+// @bound one loop iteration per case; values = arbitrary finite numbers
+// @funcs Evaluator::run (arm State::DoThunk), ThunkData::switch_state
 run_stubs_all! {
 #[kani::proof]
 #[kani::unwind(3)]
-fn c04_thunk_run_steps() {
+fn c04_do_thunk_steps() {
     do_thunk_case(0);
     kani::cover!(true, "done thunk reused");
     do_thunk_case(1);
     kani::cover!(true, "pending thunk forced");
+}
+}
+
+// @harness id=c10_in_progress_and_memoise props=C10,C04 tier=quick cap=1200 unwindset=9Evaluator3run@first:1
+// @desc one iteration of the real Evaluator::run per case: DoThunk(t) with t InProgress (its own evaluation demands it: local x = x): the run fails with InfiniteRecursion instead of recursing; GotThunk(t) with a value on the stack: t becomes Done with exactly that value and the value stays for the consumer
+// @bound one loop iteration per case
+// @funcs Evaluator::run (arms State::DoThunk, State::GotThunk), ThunkData::switch_state, ThunkData::set_done
+run_stubs_all! {
+#[kani::proof]
+#[kani::unwind(3)]
+fn c10_in_progress_and_memoise() {
     do_thunk_case(2);
     kani::cover!(true, "in-progress thunk demanded");
     got_thunk_case();
@@ -278,15 +289,14 @@ fn equals_prim_case(kl: u8, kr: u8) -> Option<bool> {
     verdict
 }
 
-// @harness id=c08_equals_primitives props=C08 tier=quick cap=1500 fs=4096 unwindset=9Evaluator3run@first:1
-// @desc one iteration of the real Evaluator::run on EqualsValue per case, operands: null/null (true); any two booleans, any two finite numbers (+0 == -0), two one-character strings: true exactly when same content (hence reflexive and symmetric on primitives); function/function: the CompareFunctions error, never a boolean; values of different types (number/string, string/number, null/boolean, function/number, []/number): false whatever the contents and never an error; []/[]: true without evaluating anything
-// @bound one loop iteration per case; 11 type pairs; all finite doubles; strings of one character
+// @harness id=c08_equals_same_type props=C08 tier=quick cap=1500 unwindset=9Evaluator3run@first:1
+// @desc one iteration of the real Evaluator::run on EqualsValue per case, operands of the same primitive type: null/null (true); any two booleans, any two finite numbers (+0 == -0), two one-character strings: true exactly when same content (hence reflexive and symmetric on primitives)
+// @bound one loop iteration per case; all finite doubles; strings of one character
 // @funcs Evaluator::run (arm State::EqualsValue)
-// @out object == object (needs get_visible_fields_order, see C07); nested arrays are covered by the array steps
 run_stubs_all! {
 #[kani::proof]
 #[kani::unwind(4)]
-fn c08_equals_primitives() {
+fn c08_equals_same_type() {
     let v = equals_prim_case(0, 0);
     kani::cover!(v == Some(true), "null == null");
     let v = equals_prim_case(1, 1);
@@ -298,6 +308,18 @@ fn c08_equals_primitives() {
     let v = equals_prim_case(3, 3);
     kani::cover!(v == Some(true), "equal strings");
     kani::cover!(v == Some(false), "different strings");
+}
+}
+
+// @harness id=c08_equals_mixed_types props=C08 tier=quick cap=1500 unwindset=9Evaluator3run@first:1
+// @desc EqualsValue per case: function/function is the CompareFunctions error, never a boolean; values of different types (number/string, string/number, null/boolean, function/number) are false whatever the contents and never an error
+// @bound one loop iteration per case; 5 type pairs
+// @funcs Evaluator::run (arm State::EqualsValue)
+// @out object == object: c08_equals_objects
+run_stubs_all! {
+#[kani::proof]
+#[kani::unwind(4)]
+fn c08_equals_mixed_types() {
     let v = equals_prim_case(4, 4);
     kani::cover!(v.is_none(), "functions: error");
     let v = equals_prim_case(2, 3);
@@ -308,6 +330,17 @@ fn c08_equals_primitives() {
     kani::cover!(v == Some(false), "null vs boolean");
     let v = equals_prim_case(4, 2);
     kani::cover!(v == Some(false), "function vs number");
+}
+}
+
+// @harness id=c08_equals_array_other props=C08 tier=quick cap=1500 unwindset=9Evaluator3run@first:1
+// @desc EqualsValue per case: []/number is false; []/[] is true without evaluating anything
+// @bound one loop iteration per case
+// @funcs Evaluator::run (arm State::EqualsValue)
+run_stubs_all! {
+#[kani::proof]
+#[kani::unwind(4)]
+fn c08_equals_array_other() {
     let v = equals_prim_case(5, 2);
     kani::cover!(v == Some(false), "array vs number");
     let v = equals_prim_case(5, 5);
@@ -413,7 +446,7 @@ fn equals_array_step_case() {
     core::mem::forget((la, ra, l_items, r_items, env));
 }
 
-// @harness id=c08_equals_arrays props=C08 tier=quick cap=1500 fs=4096 unwindset=9Evaluator3run@first:1
+// @harness id=c08_equals_arrays props=C08 tier=quick cap=1500 unwindset=9Evaluator3run@first:1
 // @desc one iteration of the real Evaluator::run per case. EqualsValue over two 2-element arrays of unevaluated items: no verdict yet; scheduled, in evaluation order: lhs[0], rhs[0], their EqualsValue, then EqualsArray{index 0}, inside one counted frame. Lengths 1 and 2: false at once, no item evaluated. EqualsArray{lhs, rhs, index} over two 3-element arrays, from ANY index and ANY outcome of the item comparison just made: at the last index the item's verdict is the array's verdict; before it a false item gives false at once (later items are never evaluated) and a true item schedules exactly the comparison of item index+1. By induction over the index: arrays are equal iff same length and all items equal, compared left to right
 // @bound one loop iteration per case; arrays of length 1..3, index in 0..3
 // @funcs Evaluator::run (arms State::EqualsValue, State::EqualsArray)
@@ -480,14 +513,14 @@ fn compare_prim_case(kl: u8, kr: u8) -> Option<std::cmp::Ordering> {
     o
 }
 
-// @harness id=c08_compare_primitives props=C08 tier=quick cap=1500 fs=4096 unwindset=9Evaluator3run@first:1
-// @desc one iteration of the real Evaluator::run on CompareValue per case: any two finite numbers: the ordering pushed is the numeric one (Less iff a < b, Greater iff a > b, Equal iff a == b; exactly one holds since no NaN can occur, and swapping the operands reverses it); two one-character strings: ordered by character; []/[]: Equal; null/null, boolean/boolean, function/function and mixed types (number/string, []/number): the specific error, never an ordering
-// @bound one loop iteration per case; 8 type pairs; all finite doubles; one-character ASCII strings (code-point order of longer / non-ASCII strings: c08_string_order_is_codepoint_order)
+// @harness id=c08_compare_ordered_types props=C08 tier=quick cap=1500 unwindset=9Evaluator3run@first:1
+// @desc one iteration of the real Evaluator::run on CompareValue per case: any two finite numbers: the ordering pushed is the numeric one (Less iff a < b, Greater iff a > b, Equal iff a == b; exactly one holds since no NaN can occur, and swapping the operands reverses it); two one-character strings: ordered by character; []/[]: Equal
+// @bound one loop iteration per case; all finite doubles; one-character ASCII strings (code-point order of longer / non-ASCII strings: c08_string_order_is_codepoint_order)
 // @funcs Evaluator::run (arm State::CompareValue)
 run_stubs_all! {
 #[kani::proof]
 #[kani::unwind(4)]
-fn c08_compare_primitives() {
+fn c08_compare_ordered_types() {
     let o = compare_prim_case(2, 2);
     kani::cover!(o == Some(std::cmp::Ordering::Less), "number less");
     kani::cover!(o == Some(std::cmp::Ordering::Equal), "number equal");
@@ -498,6 +531,17 @@ fn c08_compare_primitives() {
     kani::cover!(o == Some(std::cmp::Ordering::Greater), "string greater");
     let o = compare_prim_case(5, 5);
     kani::cover!(o == Some(std::cmp::Ordering::Equal), "[] vs []");
+}
+}
+
+// @harness id=c08_compare_unordered_types props=C08 tier=quick cap=1500 unwindset=9Evaluator3run@first:1
+// @desc CompareValue per case: null/null, boolean/boolean, function/function and mixed types (number/string, []/number) give the specific error, never an ordering
+// @bound one loop iteration per case; 5 type pairs
+// @funcs Evaluator::run (arm State::CompareValue)
+run_stubs_all! {
+#[kani::proof]
+#[kani::unwind(4)]
+fn c08_compare_unordered_types() {
     let o = compare_prim_case(0, 0);
     kani::cover!(o.is_none(), "null vs null: error");
     let o = compare_prim_case(1, 1);
@@ -577,7 +621,7 @@ fn compare_array_step_case<const NL: usize, const NR: usize>() {
     core::mem::forget((la, ra, l_items, r_items, env));
 }
 
-// @harness id=c08_compare_arrays_start props=C08 tier=quick cap=1500 fs=4096 unwindset=9Evaluator3run@first:1
+// @harness id=c08_compare_arrays_start props=C08 tier=quick cap=1500 unwindset=9Evaluator3run@first:1
 // @desc one iteration of the real Evaluator::run on CompareValue over arrays of unevaluated items per case: [] vs [x, y]: Less, [x, y] vs []: Greater, nothing evaluated; non-empty arrays of lengths 1 and 2: item 0 of both is scheduled (lhs first), then CompareValue, then CompareArray{index 0}
 // @bound one loop iteration per case; lengths 0..2
 // @funcs Evaluator::run (arm State::CompareValue)
@@ -594,7 +638,7 @@ fn c08_compare_arrays_start() {
 }
 }
 
-// @harness id=c08_compare_array_steps props=C08 tier=quick cap=1500 fs=4096 unwindset=9Evaluator3run@first:1
+// @harness id=c08_compare_array_steps props=C08 tier=quick cap=1500 unwindset=9Evaluator3run@first:1
 // @desc one iteration of the real Evaluator::run on CompareArray{lhs, rhs, index} for the length pairs (2,3), (3,2), (3,3), from ANY index present in both arrays and ANY outcome of the item comparison just made: a non-Equal item decides (later items are not evaluated); on Equal, if one side is exhausted the shorter array is smaller and equal lengths give Equal (prefix rule), otherwise item index+1 of both is scheduled. With induction over the index this is the lexicographic order
 // @bound one loop iteration per case; lengths 2 and 3
 // @funcs Evaluator::run (arm State::CompareArray)
@@ -658,7 +702,7 @@ fn invert_bool_case() {
     core::mem::forget(program);
 }
 
-// @harness id=c08_ordering_to_operators props=C08 tier=quick cap=1200 fs=4096 unwindset=9Evaluator3run@first:1
+// @harness id=c08_ordering_to_operators props=C08 tier=quick cap=1200 unwindset=9Evaluator3run@first:1
 // @desc one iteration of the real Evaluator::run per case: CmpOrdToBoolValueIsLt / IsLe / IsGt / IsGe turn the ordering into the operator's boolean: `<` true exactly for Less, `<=` for Less or Equal, `>` for Greater, `>=` for Greater or Equal (so a < b and b < a are never both true, a < a is false, a <= b iff not b < a); InvertBool (how != is obtained from ==) negates the boolean on top of the boolean stack
 // @bound one loop iteration per case; the three orderings
 // @funcs Evaluator::run (arms State::CmpOrdToBoolValueIs{Lt,Le,Gt,Ge}, State::InvertBool)
@@ -699,7 +743,7 @@ fn c08_string_order_is_codepoint_order() {
     kani::cover!(by_bytes == std::cmp::Ordering::Less && an > bn, "the longer encoding can be the smaller string");
 }
 
-// @harness id=c08_must_fail props=C08,C10 tier=quick cap=900 fs=4096 expect=fail unwindset=9Evaluator3run@first:1
+// @harness id=c08_must_fail props=C08,C10 tier=quick cap=900 expect=fail unwindset=9Evaluator3run@first:1
 // @desc vacuity twin of the run-step harnesses
 run_stubs_all! {
 #[kani::proof]
@@ -718,5 +762,200 @@ fn c08_must_fail() {
     core::mem::forget(ev);
     core::mem::forget(program);
     assert!(false, "reachability witness");
+}
+}
+
+// ---------------------------------------------------------------------------------------------------
+// C08: == on objects (EqualsValue object arm, EqualsObject)
+// ---------------------------------------------------------------------------------------------------
+// The objects are built with `fields_order` ALREADY INITIALISED (the OnceCell holds the sorted field list, as it
+// does after any earlier use of the object), consistent with the layer contents, so that the comparison logic is
+// decided separately from the computation of the field order (C07). Field thunks are pre-set as well.
+
+pub(super) fn vis3(k: u8) -> ast::Visibility {
+    match k {
+        0 => ast::Visibility::Default,
+        1 => ast::Visibility::Hidden,
+        _ => ast::Visibility::ForceVisible,
+    }
+}
+
+fn obj_field<'p>(vis: ast::Visibility, thunk: &GcView<ThunkData<'p>>) -> ObjectField<'p> {
+    ObjectField::Normal(ObjectFieldData {
+        base_env: None,
+        visibility: vis,
+        expr: None,
+        thunk: OnceCell::from(Gc::from(thunk)),
+    })
+}
+
+/// A one-layer object with the fields `names[i]: vis[i]` (names sorted), `fields_order` initialised.
+pub(super) fn one_layer_object<'p, const N: usize>(
+    names: [InternedStr<'p>; N],
+    vis: [ast::Visibility; N],
+    thunks: &[GcView<ThunkData<'p>>; N],
+) -> GcView<ObjectData<'p>> {
+    let mut slots: [Option<(InternedStr<'p>, ObjectField<'p>)>; 4] = [None, None, None, None];
+    let mut i = 0;
+    while i < N {
+        slots[i] = Some((names[i], obj_field(vis[i], &thunks[i])));
+        i += 1;
+    }
+    let order: Vec<(InternedStr<'p>, ast::Visibility)> = (0..N).map(|i| (names[i], vis[i])).collect();
+    GcView::kani_unmanaged(ObjectData {
+        self_layer: ObjectLayer {
+            is_top: true,
+            locals: &[],
+            base_env: None,
+            env: OnceCell::new(),
+            fields: FHashMap::kani_from_slots(slots),
+            asserts: &[],
+        },
+        super_layers: Vec::new(),
+        fields_order: OnceCell::from(order.into_boxed_slice()),
+        asserts_checked: Cell::new(true),
+    })
+}
+
+/// A visibility code: the given one if `k` is 0..=2, ANY of the three if `k` is negative.
+fn vis_code(k: i8) -> u8 {
+    if k >= 0 {
+        k as u8
+    } else {
+        let v: u8 = kani::any();
+        kani::assume(v < 3);
+        v
+    }
+}
+
+/// EqualsValue on {a, b} (lhs) and {a, b, c} (rhs); visibility codes: 0 default, 1 hidden, 2 forced, -1 = ANY.
+fn equals_objects_start_case(lk: [i8; 2], rk: [i8; 3]) {
+    let arena = Arena::new();
+    let mut program = bare_program(&arena);
+    program.max_stack = 0;
+    let a = program.str_interner.intern(&arena, "a");
+    let b = program.str_interner.intern(&arena, "b");
+    let c = program.str_interner.intern(&arena, "c");
+    let env = GcView::kani_unmanaged(ThunkEnv::new());
+    let lt: [GcView<ThunkData<'_>>; 2] = core::array::from_fn(|_| pending_thunk(&arena, &env));
+    let rt: [GcView<ThunkData<'_>>; 3] = core::array::from_fn(|_| pending_thunk(&arena, &env));
+    let lv: [u8; 2] = [vis_code(lk[0]), vis_code(lk[1])];
+    let rv: [u8; 3] = [vis_code(rk[0]), vis_code(rk[1]), vis_code(rk[2])];
+    let lhs = one_layer_object([a, b], [vis3(lv[0]), vis3(lv[1])], &lt);
+    let rhs = one_layer_object([a, b, c], [vis3(rv[0]), vis3(rv[1]), vis3(rv[2])], &rt);
+    let mut ev = bare_evaluator(&mut program);
+    ev.stack_trace_len = 1;
+    ev.value_stack.push(ValueData::Object(Gc::from(&lhs)));
+    ev.value_stack.push(ValueData::Object(Gc::from(&rhs)));
+    ev.state_stack.push(State::EqualsValue);
+    let r = ev.run();
+    assert!(is_stack_overflow(&r), "the step ran");
+    assert!(ev.value_stack.is_empty());
+    // specification: the two objects must have the same set of VISIBLE field names (hidden fields do not count)
+    let lvis = [lv[0] != 1, lv[1] != 1, false];
+    let rvis = [rv[0] != 1, rv[1] != 1, rv[2] != 1];
+    let same = lvis[0] == rvis[0] && lvis[1] == rvis[1] && lvis[2] == rvis[2];
+    if !same {
+        assert!(ev.bool_stack.len() == 1 && !ev.bool_stack[0], "different visible field sets: not equal, no field is evaluated");
+        assert!(ev.state_stack.is_empty());
+    } else if !lvis[0] && !lvis[1] {
+        assert!(ev.bool_stack.len() == 1 && ev.bool_stack[0], "no visible fields on either side: equal");
+        assert!(ev.state_stack.is_empty());
+    } else {
+        // comparison starts with the smallest visible name
+        let first = if lvis[0] { 0 } else { 1 };
+        let first_name = if first == 0 { a } else { b };
+        assert!(ev.bool_stack.is_empty(), "no verdict before the fields are compared");
+        assert!(ev.state_stack.len() == 5);
+        let rest_ok = matches!(&ev.state_stack[0], State::EqualsObject { lhs: l, rhs: rr, rem_fields }
+            if l.kani_same(&lhs) && rr.kani_same(&rhs)
+               && ((first == 0 && lvis[1] && rem_fields.len() == 1 && rem_fields[0] == b) || ((first == 1 || !lvis[1]) && rem_fields.is_empty())));
+        assert!(rest_ok, "the remaining visible fields are kept for later, in order");
+        assert!(matches!(&ev.state_stack[1], State::TraceItem(TraceItem::CompareObjectField { name }) if *name == first_name));
+        assert!(matches!(&ev.state_stack[2], State::EqualsValue));
+        assert!(matches!(&ev.state_stack[3], State::DoThunk(t) if t.kani_same(&rt[first])), "the rhs field of that name");
+        assert!(matches!(&ev.state_stack[4], State::DoThunk(t) if t.kani_same(&lt[first])), "the lhs field of that name, evaluated first");
+    }
+    kani::cover!(!same, "different visible field sets");
+    kani::cover!(same && (lvis[0] || lvis[1]), "same visible field set: first field scheduled");
+    core::mem::forget(r);
+    core::mem::forget(ev);
+    core::mem::forget(program);
+    core::mem::forget((lhs, rhs, lt, rt, env));
+}
+
+/// EqualsObject with 0, 1 or 2 remaining fields and ANY verdict of the field just compared.
+fn equals_object_step_case() {
+    let arena = Arena::new();
+    let mut program = bare_program(&arena);
+    program.max_stack = 0;
+    let a = program.str_interner.intern(&arena, "a");
+    let b = program.str_interner.intern(&arena, "b");
+    let c = program.str_interner.intern(&arena, "c");
+    let env = GcView::kani_unmanaged(ThunkEnv::new());
+    let lt: [GcView<ThunkData<'_>>; 3] = core::array::from_fn(|_| pending_thunk(&arena, &env));
+    let rt: [GcView<ThunkData<'_>>; 3] = core::array::from_fn(|_| pending_thunk(&arena, &env));
+    let d = ast::Visibility::Default;
+    let lhs = one_layer_object([a, b, c], [d, d, d], &lt);
+    let rhs = one_layer_object([a, b, c], [d, d, d], &rt);
+    // rem_fields is kept reversed (popped from the end): [] | [c] | [c, b]
+    let n: u8 = kani::any();
+    kani::assume(n < 3);
+    let mut rem: Vec<InternedStr<'_>> = Vec::with_capacity(4);
+    if n >= 1 {
+        rem.push(c);
+    }
+    if n >= 2 {
+        rem.push(b);
+    }
+    let field_eq: bool = kani::any();
+    let mut ev = bare_evaluator(&mut program);
+    ev.stack_trace_len = 1;
+    ev.bool_stack.push(field_eq);
+    ev.state_stack.push(State::EqualsObject { lhs: lhs.clone(), rhs: rhs.clone(), rem_fields: rem });
+    let r = ev.run();
+    assert!(is_stack_overflow(&r), "the step ran");
+    if n == 0 {
+        assert!(ev.bool_stack.len() == 1 && ev.bool_stack[0] == field_eq, "last field: its verdict is the verdict");
+        assert!(ev.state_stack.is_empty());
+        kani::cover!(field_eq, "all fields equal");
+    } else if !field_eq {
+        assert!(ev.bool_stack.len() == 1 && !ev.bool_stack[0], "first different field decides");
+        assert!(ev.state_stack.is_empty(), "later fields are not evaluated");
+        kani::cover!(true, "early exit");
+    } else {
+        let next = if n == 2 { 1 } else { 2 }; // b, then c
+        let next_name = if n == 2 { b } else { c };
+        assert!(ev.bool_stack.is_empty());
+        assert!(ev.state_stack.len() == 5);
+        assert!(matches!(&ev.state_stack[0], State::EqualsObject { lhs: l, rhs: rr, rem_fields }
+            if l.kani_same(&lhs) && rr.kani_same(&rhs) && rem_fields.len() == (n as usize) - 1 && (n == 1 || rem_fields[0] == c)));
+        assert!(matches!(&ev.state_stack[1], State::TraceItem(TraceItem::CompareObjectField { name }) if *name == next_name));
+        assert!(matches!(&ev.state_stack[2], State::EqualsValue));
+        assert!(matches!(&ev.state_stack[3], State::DoThunk(t) if t.kani_same(&rt[next])));
+        assert!(matches!(&ev.state_stack[4], State::DoThunk(t) if t.kani_same(&lt[next])));
+        kani::cover!(n == 2, "two fields left");
+    }
+    core::mem::forget(r);
+    core::mem::forget(ev);
+    core::mem::forget(program);
+    core::mem::forget((lhs, rhs, lt, rt, env));
+}
+
+// @harness id=c08_equals_objects props=C08,C07 tier=quick cap=1800 unwindset=9Evaluator3run@first:1
+// @desc one iteration of the real Evaluator::run per case. EqualsValue on the objects {a, b} and {a, b, c} (c visible and b of ANY visibility on the right; c hidden and b of ANY visibility on both sides): the objects can only be equal if their sets of VISIBLE field names are the same (hidden fields do not count; the same number of visible fields is not enough); then the comparison starts with the smallest visible name (lhs field evaluated first) and keeps the remaining names in order; no visible fields at all is equal at once. EqualsObject with 0, 1 or 2 fields left and ANY verdict of the field just compared: the last field's verdict is the verdict, a different field decides at once (later fields are never evaluated), an equal field schedules exactly the next name
+// @bound one loop iteration per case; one-layer objects of 2 and 3 fields with the field order already cached (its computation is C07's subject)
+// @funcs Evaluator::run (arms State::EqualsValue, State::EqualsObject), ObjectData::get_visible_fields_order, Program::find_object_field_thunk, ObjectData::find_field
+// @out objects with inheritance (the layer semantics are C07's subject); object asserts
+run_stubs_all! {
+#[kani::proof]
+#[kani::unwind(6)]
+fn c08_equals_objects() {
+    // c visible on the rhs only: never equal, whatever b's visibility on the rhs is (with b hidden there the two sides
+    // have the same NUMBER of visible fields)
+    equals_objects_start_case([0, 0], [0, -1, 0]);
+    // c hidden: equal field sets exactly when b is visible on both sides or on neither
+    equals_objects_start_case([0, -1], [0, -1, 1]);
+    equals_object_step_case();
 }
 }
